@@ -17,12 +17,14 @@ import (
 	"encoding/binary"
 	"fmt"
 	"os"
+	"runtime"
 	"sort"
 	"strings"
 	"sync"
 	"sync/atomic"
 	"time"
 
+	"github.com/hydraide/hydraide/app/verifhook"
 	hydrapb "github.com/hydraide/hydraide/sdk/go/hydraidego/v3/hydraidepbgo"
 	"verif/harness/common"
 	"verif/harness/rig"
@@ -66,15 +68,20 @@ const (
 	kShift
 	kPatch
 	kGet
+	kIncIf  // conditional IncrementInt64
+	kShiftM // ShiftMatchingTreasures (filter: Int64 value > Thr), one request, one hop per key
 )
 
-var kindNames = []string{"Set", "Inc", "Del", "Shift", "Patch", "Get"}
+var kindNames = []string{"Set", "Inc", "Del", "Shift", "Patch", "Get", "IncIf", "ShiftM"}
 
 type op struct {
 	Kind   int   `json:"kind"`
 	V      val   `json:"v"`      // Set
 	D      int64 `json:"d"`      // Inc / Patch delta
 	Create bool  `json:"create"` // Patch
+	C      int   `json:"c"`      // IncIf: relational operator (proto numbering 0 = 1 > 2 >= 3 < 4 <= 5 <>)
+	CV     int64 `json:"cv"`     // IncIf: reference value
+	Thr    int64 `json:"thr"`    // ShiftM: threshold
 }
 
 func (o op) coq() string {
@@ -89,6 +96,10 @@ func (o op) coq() string {
 		return "OShift"
 	case kPatch:
 		return "(OPatch " + common.Bool(o.Create) + " " + common.Z(o.D) + ")"
+	case kIncIf:
+		return "(OIncIf " + common.N(uint64(o.C)) + " " + common.Z(o.CV) + " " + common.Z(o.D) + ")"
+	case kShiftM:
+		return "(OShiftM " + common.Z(o.Thr) + ")"
 	}
 	return "OGet"
 }
@@ -100,6 +111,10 @@ func (o op) String() string {
 		return fmt.Sprintf("Inc(%d)", o.D)
 	case kPatch:
 		return fmt.Sprintf("Patch(create=%v,%d)", o.Create, o.D)
+	case kIncIf:
+		return fmt.Sprintf("IncIf(cur %s %d, %d)", []string{"==", ">", ">=", "<", "<=", "!="}[o.C], o.CV, o.D)
+	case kShiftM:
+		return fmt.Sprintf("ShiftMatching(value>%d)", o.Thr)
 	}
 	return kindNames[o.Kind]
 }
@@ -111,6 +126,7 @@ type resp struct {
 	Z    int64 `json:"z"`    // Inc value; Patch code
 	V    val   `json:"v"`    // Shift / Get value
 	Err  bool  `json:"err"`
+	No   bool  `json:"no"` // IncIf: condition not met (Z = current value)
 }
 
 func (r resp) coq() string {
@@ -121,6 +137,9 @@ func (r resp) coq() string {
 		if r.Err {
 			return "RErr"
 		}
+		if r.No {
+			return "(RIncNo " + common.Z(r.Z) + ")"
+		}
 		return "(RInc " + common.Z(r.Z) + ")"
 	case kDel:
 		return "(RDel " + common.Bool(r.B) + ")"
@@ -128,6 +147,8 @@ func (r resp) coq() string {
 		return "(RShift " + r.V.coq() + ")"
 	case kPatch:
 		return "(RPatch " + common.N(uint64(r.Z)) + ")"
+	case kShiftM:
+		return "(RShiftM " + r.V.coq() + ")"
 	}
 	return "(RGet " + r.V.coq() + ")"
 }
@@ -141,6 +162,9 @@ func (r resp) String() string {
 	case kInc:
 		if r.Err {
 			return "ERR"
+		}
+		if r.No {
+			return fmt.Sprintf("REJECTED(cur=%d)", r.Z)
 		}
 		return fmt.Sprintf("=%d", r.Z)
 	case kDel:
@@ -168,6 +192,23 @@ func seqStep(s val, o op) (val, resp) {
 			return val{'I', s.Z + o.D}, resp{Kind: kInc, Z: s.Z + o.D}
 		}
 		return s, resp{Kind: kInc, Err: true}
+	case kIncIf:
+		cur := int64(0)
+		switch s.Kind {
+		case 'I':
+			cur = s.Z
+		case 'M':
+			return s, resp{Kind: kInc, Err: true}
+		}
+		if !condHolds(o.C, o.CV, cur) {
+			return s, resp{Kind: kInc, No: true, Z: cur}
+		}
+		return val{'I', cur + o.D}, resp{Kind: kInc, Z: cur + o.D}
+	case kShiftM:
+		if shiftmMatch(o.Thr, s) {
+			return val{}, resp{Kind: kShiftM, V: s}
+		}
+		return s, resp{Kind: kShiftM}
 	case kDel:
 		return val{}, resp{Kind: kDel, B: s.Kind != 0}
 	case kShift:
@@ -187,6 +228,23 @@ func seqStep(s val, o op) (val, resp) {
 	return s, resp{Kind: kGet, V: s}
 }
 
+func condHolds(c int, cv, v int64) bool {
+	switch c {
+	case 0:
+		return v == cv
+	case 1:
+		return v > cv
+	case 2:
+		return v >= cv
+	case 3:
+		return v < cv
+	case 4:
+		return v <= cv
+	}
+	return v != cv
+}
+func shiftmMatch(thr int64, s val) bool { return s.Kind == 'I' && s.Z > thr }
+
 type rstate struct{ cur, ghost val }
 
 // relaxedStep mirrors Lin.relaxed_step
@@ -205,6 +263,14 @@ func relaxedStep(relax int, flag bool, s rstate, o op) (rstate, resp, bool) {
 		return rstate{val{}, removed}, resp{Kind: kShift, V: s.cur}, flag && relax >= 3
 	case kGet:
 		return s, resp{Kind: kGet, V: s.cur}, false
+	case kShiftM:
+		if flag && relax >= 3 {
+			return rstate{val{}, removed}, resp{Kind: kShiftM, V: s.cur}, true
+		}
+		if shiftmMatch(o.Thr, s.cur) {
+			return rstate{val{}, s.cur}, resp{Kind: kShiftM, V: s.cur}, false
+		}
+		return s, resp{Kind: kShiftM}, false
 	}
 	if flag && relax >= 2 && s.ghost.Kind != 0 {
 		g2, r := seqStep(s.ghost, o)
@@ -400,6 +466,19 @@ func (e *engine) do(swamp, key string, o op) (r resp, problem string) {
 			return r, "Inc: not incremented without a condition"
 		}
 		return resp{Kind: kInc, Z: out.Value}, ""
+	case kIncIf:
+		out, err := gw.IncrementInt64(ctx, &hydrapb.IncrementInt64Request{IslandID: 1, SwampName: swamp, Key: key, IncrementBy: o.D,
+			Condition: &hydrapb.IncrementInt64Condition{RelationalOperator: hydrapb.Relational_Operator(o.C), Value: o.CV}})
+		if err != nil {
+			if strings.Contains(err.Error(), "not an integer") {
+				return resp{Kind: kInc, Err: true}, ""
+			}
+			return r, "IncIf: " + err.Error()
+		}
+		if out == nil {
+			return r, "IncIf: nil reply (request panicked)"
+		}
+		return resp{Kind: kInc, Z: out.Value, No: !out.IsIncremented}, ""
 	case kDel:
 		out, err := gw.Delete(ctx, &hydrapb.DeleteRequest{Swamps: []*hydrapb.DeleteRequest_SwampKeys{{IslandID: 1, SwampName: swamp, Keys: []string{key}}}})
 		if err != nil || out == nil || len(out.Responses) != 1 || len(out.Responses[0].KeyStatuses) != 1 {
@@ -441,24 +520,128 @@ func (e *engine) do(swamp, key string, o op) (r resp, problem string) {
 	return resp{Kind: kGet, V: v}, ""
 }
 
+// doShiftM issues one ShiftMatchingTreasures (key index, ascending, all matches of
+// "Int64 value > thr") and returns the records it handed out, by key.
+func (e *engine) doShiftM(swamp string, thr int64) (map[string]val, string) {
+	out, err := e.s.GW.ShiftMatchingTreasures(context.Background(), &hydrapb.ShiftMatchingTreasuresRequest{IslandID: 1, SwampName: swamp,
+		IndexType: hydrapb.IndexType_KEY, OrderType: hydrapb.OrderType_ASC, HowMany: 0,
+		Filters: &hydrapb.FilterGroup{Logic: hydrapb.FilterLogic_AND, Filters: []*hydrapb.TreasureFilter{{
+			Operator: hydrapb.Relational_GREATER_THAN, CompareValue: &hydrapb.TreasureFilter_Int64Val{Int64Val: thr}}}}})
+	if err != nil || out == nil {
+		return nil, fmt.Sprintf("ShiftMatching: unexpected reply %v err=%v", out, err)
+	}
+	got := map[string]val{}
+	for _, t := range out.Treasures {
+		v, ok := treasureVal(t)
+		if !ok {
+			return nil, fmt.Sprintf("ShiftMatching: content not understood: %v", t)
+		}
+		if _, dup := got[t.Key]; dup {
+			return nil, fmt.Sprintf("ShiftMatching: key %s handed out twice in one reply", t.Key)
+		}
+		got[t.Key] = v
+	}
+	return got, ""
+}
+
+// requestTimeout: a request that has not returned after this long is reported as never
+// returning (its goroutine stays behind); generous, the machine may be heavily loaded
+const requestTimeout = 20 * time.Second
+
+var hungRequests int64
+
+// guarded runs f with the watchdog; ok=false means f did not return in time
+func guarded(f func()) bool {
+	done := make(chan struct{})
+	go func() { f(); close(done) }()
+	select {
+	case <-done:
+		return true
+	case <-time.After(requestTimeout):
+		atomic.AddInt64(&hungRequests, 1)
+		return false
+	}
+}
+
+// lock-order inversion found by agent a14 (index beacon mutex vs record guard)
+func isIndexGuardDeadlock(dump string) bool {
+	a, b := false, false
+	for _, g := range strings.Split(dump, "\n\n") {
+		if strings.Contains(g, "guard.(*guard).StartTreasureGuard") && strings.Contains(g, "beacon.(*beacon).") {
+			a = true
+		}
+		if (strings.Contains(g, "sync.(*RWMutex).Lock") || strings.Contains(g, "sync.(*RWMutex).RLock")) && strings.Contains(g, "beacon.(*beacon).") &&
+			(strings.Contains(g, "(*swamp).deleteHandler") || strings.Contains(g, "(*swamp).SaveFunction")) {
+			b = true
+		}
+	}
+	return a && b
+}
+
+// schedule fuzzing: at the verif hook points of the engine (record create/save/delete paths,
+// flush, summon, ...) a request is now and then held for a few dozen microseconds or yields, so
+// that the windows between "object obtained", "guard taken", "published" and "guard released"
+// are actually hit by other requests
+var fuzzCtr, fuzzSeed uint64
+
+func installFuzz(seed uint64) {
+	fuzzSeed = seed
+	verifhook.Install(func(site string, gid int64, a []int64) {
+		x := atomic.AddUint64(&fuzzCtr, 1)*0x9E3779B97F4A7C15 ^ fuzzSeed
+		x = (x ^ (x >> 30)) * 0xBF58476D1CE4E5B9
+		x = (x ^ (x >> 27)) * 0x94D049BB133111EB
+		x ^= x >> 31
+		k := x % 8
+		if (site == "swamp.save.enter" || site == "gateway.set.guarded" || site == "swamp.createTreasure.created") && k < 3 {
+			k = 0 // hold more often where a record object is obtained but not yet published
+		}
+		if strings.HasSuffix(site, ".obtained") && x%2 == 0 {
+			// a writer that holds a record object but has not queued on its guard yet
+			time.Sleep(time.Duration(100+(x>>8)%500) * time.Microsecond)
+			return
+		}
+		switch k {
+		case 0:
+			time.Sleep(time.Duration(20+(x>>8)%300) * time.Microsecond)
+		case 1, 2:
+			runtime.Gosched()
+		}
+	})
+}
+
 // ---- rounds ------------------------------------------------------------------------------
 
 type profile struct {
 	name    string
-	weights [6]int // Set Inc Del Shift Patch Get
+	weights [8]int // Set Inc Del Shift Patch Get IncIf ShiftM
 	setM    int    // percent of Sets that store a msgpack body
 }
 
+// IncIf is only mixed with int-only alphabets: a rejected conditional increment of an absent
+// key leaves its in-flight record (content int64 0) in the create tracker, which a later Patch
+// answers with TYPE_MISMATCH - a sequential divergence that is not this property's subject.
+// ShiftM is not mixed with Delete/ShiftByKeys/type-changing Sets: ShiftMatching holds the index
+// beacon mutex while taking record guards, deleteHandler the other way round (known finding
+// deadlock_index_lock_vs_record_guard).
 var profiles = []profile{
-	{"counter", [6]int{0, 100, 0, 0, 0, 0}, 0},
-	{"intmix", [6]int{15, 65, 0, 0, 0, 20}, 0},
-	{"patch", [6]int{15, 0, 0, 0, 70, 15}, 100},
-	{"typemix", [6]int{20, 35, 0, 0, 35, 10}, 50},
-	{"del", [6]int{15, 45, 15, 15, 0, 10}, 0},
-	{"all", [6]int{15, 25, 10, 10, 25, 15}, 40},
+	{"counter", [8]int{0, 100, 0, 0, 0, 0, 0, 0}, 0},
+	{"intmix", [8]int{15, 50, 0, 0, 0, 20, 15, 0}, 0},
+	{"patch", [8]int{15, 0, 0, 0, 70, 15, 0, 0}, 100},
+	{"typemix", [8]int{20, 35, 0, 0, 35, 10, 0, 0}, 50},
+	{"del", [8]int{15, 40, 15, 15, 0, 10, 5, 0}, 0},
+	{"all", [8]int{15, 25, 10, 10, 25, 15, 0, 0}, 40},
+	{"fresh", [8]int{30, 25, 0, 0, 0, 10, 35, 0}, 0}, // many fresh keys, every thread touches each key once, in step
+	{"shiftm", [8]int{35, 20, 0, 0, 0, 5, 5, 35}, 0}, // matching shifts against writers of the same records
 }
 
 var modes = []string{"imm", "def", "mem"} // write interval 0 | 1 s | in-memory
+
+type step struct {
+	key   int
+	o     op
+	skip  bool // fresh profile: the thread only takes part in the barrier for this key
+	lagUs int  // fresh profile: delay after the barrier, microseconds
+}
 
 type roundSpec struct {
 	id       int
@@ -466,10 +649,8 @@ type roundSpec struct {
 	prof     profile
 	nthreads int
 	nkeys    int
-	progs    [][]struct {
-		key int
-		o   op
-	}
+	barrier  bool // all threads start their i-th step together
+	progs    [][]step
 }
 
 type roundResult struct {
@@ -478,6 +659,50 @@ type roundResult struct {
 	init     []val
 	final    []val
 	problems []string
+	hung     []string // requests that never returned
+	skipped  bool
+}
+
+func genOp(rng *common.Rng, prof profile, fresh bool) op {
+	wsum := 0
+	for _, w := range prof.weights {
+		wsum += w
+	}
+	x := rng.Intn(wsum)
+	kind := 0
+	for kind = 0; kind < len(prof.weights); kind++ {
+		if x < prof.weights[kind] {
+			break
+		}
+		x -= prof.weights[kind]
+	}
+	o := op{Kind: kind}
+	switch kind {
+	case kSet:
+		o.V = val{'I', int64(rng.Intn(200)) - 50}
+		if rng.Chance(prof.setM) {
+			o.V.Kind = 'M'
+		}
+	case kInc, kPatch, kIncIf:
+		o.D = int64(rng.Intn(9)) - 3
+		if o.D <= 0 {
+			o.D -= 1 // never 0 (the gateway rejects IncrementBy 0)
+		}
+		if rng.Chance(3) {
+			o.D = (int64(1) << 62) + int64(rng.Intn(1000)) // exercises the int64 wrap
+		}
+		o.Create = kind == kPatch && !rng.Chance(25)
+		if kind == kIncIf {
+			o.C = rng.Intn(6)
+			o.CV = int64(rng.Intn(120)) - 20
+			if fresh && rng.Chance(60) {
+				o.C, o.CV = 0, 777 // rejected on a key that does not exist yet
+			}
+		}
+	case kShiftM:
+		o.Thr = int64(10 + rng.Intn(60))
+	}
+	return o
 }
 
 func genRound(rng *common.Rng, id int, tier string) roundSpec {
@@ -487,76 +712,124 @@ func genRound(rng *common.Rng, id int, tier string) roundSpec {
 		sp.mode = "imm" // the mode the existing tests never exercise concurrently
 	}
 	sp.prof = profiles[rng.Intn(len(profiles))]
+	if id%6 == 5 {
+		sp.prof = profiles[6] // a guaranteed share of fresh-key rounds
+	}
+	if id%6 == 2 {
+		sp.prof = profiles[7] // ... and of matching-shift rounds
+	}
+	if only := os.Getenv("C09_ONLY"); only != "" { // experiments: one profile only
+		for _, p := range profiles {
+			if p.name == only {
+				sp.prof = p
+			}
+		}
+	}
 	sp.nthreads = 4 + rng.Intn(13)
 	sp.nkeys = 1 + rng.Intn(3)
-	perKeyCap := 44
-	total := 0
-	wsum := 0
-	for _, w := range sp.prof.weights {
-		wsum += w
+	if sp.prof.name == "fresh" {
+		// every thread visits every (not yet existing) key once, all threads in step
+		sp.nthreads = 4 + rng.Intn(9)
+		sp.nkeys = 12 + rng.Intn(13)
+		sp.barrier = true
+		for t := 0; t < sp.nthreads; t++ {
+			prog := make([]step, sp.nkeys)
+			for k := range prog {
+				// staggered arrival: some writers reach the key while the first ones are between
+				// "record object obtained", "rejected / saved" and "published"
+				lag := []int{0, 0, 0, 30, 80, 150, 300, 600}[rng.Intn(8)]
+				prog[k] = step{key: k, o: genOp(rng, sp.prof, true), skip: rng.Chance(15), lagUs: lag}
+			}
+			sp.progs = append(sp.progs, prog)
+		}
+		return sp
 	}
+	if sp.prof.name == "shiftm" && sp.nkeys == 1 {
+		sp.nkeys = 2
+	}
+	perKeyCap := 44
 	counts := make([]int, sp.nkeys)
 	for t := 0; t < sp.nthreads; t++ {
 		nops := 2 + rng.Intn(5)
-		var prog []struct {
-			key int
-			o   op
-		}
+		var prog []step
 		for i := 0; i < nops; i++ {
 			k := rng.Intn(sp.nkeys)
-			if counts[k] >= perKeyCap {
-				continue
+			o := genOp(rng, sp.prof, false)
+			if o.Kind == kShiftM {
+				full := false
+				for _, c := range counts {
+					if c >= perKeyCap {
+						full = true
+					}
+				}
+				if full {
+					continue
+				}
+				for j := range counts {
+					counts[j]++
+				}
+			} else {
+				if counts[k] >= perKeyCap {
+					continue
+				}
+				counts[k]++
 			}
-			x := rng.Intn(wsum)
-			kind := 0
-			for kind = 0; kind < 6; kind++ {
-				if x < sp.prof.weights[kind] {
-					break
-				}
-				x -= sp.prof.weights[kind]
-			}
-			o := op{Kind: kind}
-			switch kind {
-			case kSet:
-				o.V = val{'I', int64(rng.Intn(200)) - 50}
-				if rng.Chance(sp.prof.setM) {
-					o.V.Kind = 'M'
-				}
-			case kInc, kPatch:
-				o.D = int64(rng.Intn(9)) - 3
-				if o.D <= 0 {
-					o.D -= 1 // never 0 (the gateway rejects IncrementBy 0)
-				}
-				if rng.Chance(3) {
-					o.D = (int64(1) << 62) + int64(rng.Intn(1000)) // exercises the int64 wrap
-				}
-				o.Create = kind == kPatch && !rng.Chance(25)
-			}
-			counts[k]++
-			total++
-			prog = append(prog, struct {
-				key int
-				o   op
-			}{k, o})
+			prog = append(prog, step{key: k, o: o})
 		}
 		sp.progs = append(sp.progs, prog)
 	}
-	_ = total
 	return sp
+}
+
+type barrier struct {
+	mu    sync.Mutex
+	n, in int
+	ch    chan struct{}
+}
+
+func (b *barrier) wait() {
+	b.mu.Lock()
+	b.in++
+	ch := b.ch
+	if b.in >= b.n {
+		b.in = 0
+		b.ch = make(chan struct{})
+		close(ch)
+		b.mu.Unlock()
+		return
+	}
+	b.mu.Unlock()
+	select {
+	case <-ch:
+	case <-time.After(2 * time.Second):
+	}
 }
 
 func runRound(e *engine, sp roundSpec, rng *common.Rng) roundResult {
 	res := roundResult{spec: sp}
+	if atomic.LoadInt64(&hungRequests) >= 3 {
+		res.skipped = true // the engine has stuck requests: finish the run in normal time
+		return res
+	}
 	swamp := fmt.Sprintf("c09/%s/r%d", sp.mode, sp.id)
 	keyName := func(k int) string { return fmt.Sprintf("k%d", k) }
 	var clock int64
-	// the pin record keeps the swamp from ever becoming empty (auto-destroy is C16's subject)
-	if _, p := e.do(swamp, "pin", op{Kind: kSet, V: val{'I', 1}}); p != "" {
-		res.problems = append(res.problems, "pin: "+p)
+	// the pin record keeps the swamp from ever becoming empty (auto-destroy is C16's subject);
+	// its value 1 is below every ShiftM threshold
+	pinOK := guarded(func() {
+		if _, p := e.do(swamp, "pin", op{Kind: kSet, V: val{'I', 1}}); p != "" {
+			res.problems = append(res.problems, "pin: "+p)
+		}
+	})
+	if !pinOK {
+		res.hung = append(res.hung, "Set(pin) before the round")
+		return res
+	}
+	if len(res.problems) > 0 {
 		return res
 	}
 	res.init = make([]val, sp.nkeys)
-	for k := 0; k < sp.nkeys; k++ {
+	for k := 0; k < sp.nkeys && sp.prof.name != "fresh"; k++ {
 		switch rng.Intn(3) {
 		case 1:
 			res.init[k] = val{'I', int64(rng.Intn(100))}
@@ -565,44 +838,78 @@ func runRound(e *engine, sp roundSpec, rng *common.Rng) roundResult {
 				res.init[k] = val{'M', int64(rng.Intn(100))}
 			}
 		}
+		if sp.prof.name == "shiftm" {
+			res.init[k] = val{'I', int64(rng.Intn(100))}
+		}
 		if res.init[k].Kind != 0 {
-			if _, p := e.do(swamp, keyName(k), op{Kind: kSet, V: res.init[k]}); p != "" {
-				res.problems = append(res.problems, "init: "+p)
+			k := k
+			if !guarded(func() {
+				if _, p := e.do(swamp, keyName(k), op{Kind: kSet, V: res.init[k]}); p != "" {
+					res.problems = append(res.problems, "init: "+p)
+				}
+			}) {
+				res.hung = append(res.hung, "Set(init) before the round")
+				return res
 			}
 		}
 	}
 	perThread := make([][]hop, sp.nthreads)
 	probs := make([][]string, sp.nthreads)
+	hung := make([][]string, sp.nthreads)
 	var wg sync.WaitGroup
 	start := make(chan struct{})
+	bar := &barrier{n: sp.nthreads, ch: make(chan struct{})}
 	for t := 0; t < sp.nthreads; t++ {
 		wg.Add(1)
 		go func(t int) {
 			defer wg.Done()
 			<-start
 			for _, st := range sp.progs[t] {
+				if sp.barrier {
+					bar.wait()
+				}
+				if st.skip {
+					continue
+				}
+				if st.lagUs > 0 {
+					time.Sleep(time.Duration(st.lagUs) * time.Microsecond)
+				}
 				inv := atomic.AddInt64(&clock, 1)
-				r, p := e.do(swamp, keyName(st.key), st.o)
+				var r resp
+				var p string
+				var got map[string]val
+				ok := guarded(func() {
+					if st.o.Kind == kShiftM {
+						got, p = e.doShiftM(swamp, st.o.Thr)
+					} else {
+						r, p = e.do(swamp, keyName(st.key), st.o)
+					}
+				})
 				ret := atomic.AddInt64(&clock, 1)
+				if !ok {
+					hung[t] = append(hung[t], fmt.Sprintf("thread %d %s on %s (invoked at %d) never returned", t, st.o, keyName(st.key), inv))
+					return // the request's goroutine stays behind; this thread stops here
+				}
 				if p != "" {
 					probs[t] = append(probs[t], fmt.Sprintf("thread %d %s on %s: %s", t, st.o, keyName(st.key), p))
+					continue
+				}
+				if st.o.Kind == kShiftM {
+					for k := 0; k < sp.nkeys; k++ {
+						rk := resp{Kind: kShiftM, V: got[keyName(k)]}
+						perThread[t] = append(perThread[t], hop{Thread: t, Key: k, Op: st.o, Resp: rk, OpS: st.o.String(), RespS: rk.String(), Inv: inv, Ret: ret})
+					}
 					continue
 				}
 				perThread[t] = append(perThread[t], hop{Thread: t, Key: st.key, Op: st.o, Resp: r, OpS: st.o.String(), RespS: r.String(), Inv: inv, Ret: ret})
 			}
 		}(t)
 	}
-	done := make(chan struct{})
-	go func() { wg.Wait(); close(done) }()
 	close(start)
-	select {
-	case <-done:
-	case <-time.After(60 * time.Second):
-		res.problems = append(res.problems, "HANG: requests did not return within 60 s")
-		return res
-	}
+	wg.Wait() // every request is bounded by the watchdog
 	for t := range probs {
 		res.problems = append(res.problems, probs[t]...)
+		res.hung = append(res.hung, hung[t]...)
 	}
 	res.hist = make([][]hop, sp.nkeys)
 	for t := range perThread {
@@ -611,15 +918,24 @@ func runRound(e *engine, sp roundSpec, rng *common.Rng) roundResult {
 		}
 	}
 	for k := range res.hist {
-		sort.Slice(res.hist[k], func(i, j int) bool { return res.hist[k][i].Inv < res.hist[k][j].Inv })
+		sort.SliceStable(res.hist[k], func(i, j int) bool { return res.hist[k][i].Inv < res.hist[k][j].Inv })
+	}
+	if len(res.hung) > 0 {
+		return res // no final reads on a swamp with a stuck request (they could block as well)
 	}
 	res.final = make([]val, sp.nkeys)
 	for k := 0; k < sp.nkeys; k++ {
-		r, p := e.do(swamp, keyName(k), op{Kind: kGet})
-		if p != "" {
-			res.problems = append(res.problems, "final get: "+p)
+		k := k
+		if !guarded(func() {
+			r, p := e.do(swamp, keyName(k), op{Kind: kGet})
+			if p != "" {
+				res.problems = append(res.problems, "final get: "+p)
+			}
+			res.final[k] = r.V
+		}) {
+			res.hung = append(res.hung, fmt.Sprintf("final Get(%s) never returned", keyName(k)))
+			return res
 		}
-		res.final[k] = r.V
 	}
 	return res
 }
@@ -644,6 +960,7 @@ func main() {
 	srv.Register("c09/def/*", false, 3600, 1, 8192)
 	srv.Register("c09/mem/*", true, 3600, 0, 8192)
 	e := &engine{srv}
+	installFuzz(args.Seed)
 
 	nrounds := 180
 	if args.Tier == "thorough" {
@@ -665,8 +982,43 @@ func main() {
 	}
 	soakProblems := soak(e, soakN, soakT)
 
+	// requests that never returned: one goroutine dump classifies the cause
+	hangSig, hangDump := "request_never_returned", ""
+	if atomic.LoadInt64(&hungRequests) > 0 {
+		buf := make([]byte, 8<<20)
+		hangDump = string(buf[:runtime.Stack(buf, true)])
+		if isIndexGuardDeadlock(hangDump) {
+			hangSig = "deadlock_index_lock_vs_record_guard"
+		}
+		if len(hangDump) > 40000 {
+			hangDump = hangDump[:40000]
+		}
+	}
+	dumpAttached := false
 	for _, res := range results {
 		sp := res.spec
+		if res.skipped {
+			run.Hist("rounds_skipped_after_hangs")
+			continue
+		}
+		if len(res.hung) > 0 {
+			var hs []hop
+			for k := range res.hist {
+				hs = append(hs, res.hist[k]...)
+			}
+			sort.SliceStable(hs, func(i, j int) bool { return hs[i].Inv < hs[j].Inv })
+			descr := map[string]interface{}{"round": sp.id, "mode": sp.mode, "profile": sp.prof.name, "threads": sp.nthreads,
+				"never_returned": res.hung, "completed_requests": hs}
+			if !dumpAttached {
+				descr["goroutines"] = hangDump
+				dumpAttached = true
+			}
+			idx := run.Add("{| c_init := None; c_ops := []; c_order := []; c_final := None; c_relax := 0 |}", descr, true)
+			run.Hist("verdict:" + hangSig)
+			run.Violate(idx, "every request is answered", hangSig, fmt.Sprintf("round %d (%s,%s): %s (watchdog %s); %d requests of the round had completed",
+				sp.id, sp.mode, sp.prof.name, strings.Join(res.hung, "; "), requestTimeout, len(hs)))
+			continue
+		}
 		for _, p := range res.problems {
 			idx := run.Add(fmt.Sprintf("{| c_init := None; c_ops := []; c_order := []; c_final := None; c_relax := 0 |}"),
 				map[string]interface{}{"round": sp.id, "mode": sp.mode, "profile": sp.prof.name, "problem": p}, false)
@@ -716,7 +1068,7 @@ func main() {
 				// otherwise it is a new violation. Either way the history is the replay.
 				racing := false
 				for i := range h {
-					if h[i].Op.Kind != kDel && h[i].Op.Kind != kShift {
+					if h[i].Op.Kind != kDel && h[i].Op.Kind != kShift && h[i].Op.Kind != kShiftM {
 						continue
 					}
 					for j := range h {
@@ -767,7 +1119,11 @@ func main() {
 	}
 	run.Meta.Traces = nrounds
 	run.Meta.Extra["soak_increments"] = soakN
-	srv.Stop()
+	run.Meta.Extra["requests_never_returned"] = atomic.LoadInt64(&hungRequests)
+	if atomic.LoadInt64(&hungRequests) == 0 {
+		// graceful stop waits for every request; with stuck requests it would never finish
+		guarded(func() { srv.Stop() })
+	}
 	run.Finish("check_all")
 }
 
@@ -777,7 +1133,10 @@ func soak(e *engine, n, t int) []string {
 	var problems []string
 	for _, mode := range []string{"imm", "def"} {
 		swamp := "c09/" + mode + "/soak"
-		e.do(swamp, "pin", op{Kind: kSet, V: val{'I', 1}})
+		if !guarded(func() { e.do(swamp, "pin", op{Kind: kSet, V: val{'I', 1}}) }) {
+			problems = append(problems, "soak "+mode+": Set(pin) never returned")
+			continue
+		}
 		seen := make([]int32, n+1)
 		var wg sync.WaitGroup
 		var bad int64
@@ -786,7 +1145,12 @@ func soak(e *engine, n, t int) []string {
 			go func() {
 				defer wg.Done()
 				for i := 0; i < n/t; i++ {
-					r, p := e.do(swamp, "ctr", op{Kind: kInc, D: 1})
+					var r resp
+					var p string
+					if atomic.LoadInt64(&hungRequests) > 0 || !guarded(func() { r, p = e.do(swamp, "ctr", op{Kind: kInc, D: 1}) }) {
+						atomic.AddInt64(&bad, 1)
+						return
+					}
 					if p != "" || r.Err || r.Z < 1 || r.Z > int64(n) {
 						atomic.AddInt64(&bad, 1)
 						continue
@@ -798,7 +1162,12 @@ func soak(e *engine, n, t int) []string {
 			}()
 		}
 		wg.Wait()
-		r, _ := e.do(swamp, "ctr", op{Kind: kGet})
+		if atomic.LoadInt64(&hungRequests) > 0 {
+			problems = append(problems, "soak "+mode+": a request never returned")
+			continue
+		}
+		var r resp
+		guarded(func() { r, _ = e.do(swamp, "ctr", op{Kind: kGet}) })
 		want := int64(n / t * t)
 		if r.V.Kind != 'I' || r.V.Z != want || bad != 0 {
 			problems = append(problems, fmt.Sprintf("soak %s: %d acknowledged increments, counter = %s, %d failed/duplicate responses", mode, want, r.V, bad))
